@@ -4,6 +4,7 @@ package tasksim
 
 import (
 	"fmt"
+	"runtime"
 	"sort"
 	"sync"
 	"time"
@@ -25,9 +26,10 @@ func RunLeechers(c *sim.Ctx) {
 	parallel := knob("parallel_chunks", 1, 5)
 	nPeers := knob("peers", 1, 4)
 	rememberPeer := knob("ongoing_peer_remembered_after_session", 0, 1) == 1 // application variant: OngoingSessionPeer keeps naming the last session's peer
+	yieldInCallbacks := knob("callbacks_yield_the_processor", 0, 1) == 1     // application callbacks call runtime.Gosched(): other goroutines run while the leecher is inside its critical section
 	nOps := knob("ops", 1, 24)
 	c.ProbeDecl("request_chunks_called", "window_full", "tick_while_suspended", "done_reported", "chunk_dropped_window_overflow",
-		"session_started", "unregister_of_session_peer", "terminate_with_session", "session_terminated_by_flag")
+		"session_started", "unregister_of_session_peer", "terminate_with_session", "session_terminated_by_flag", "unregister_concurrent_with_tick")
 
 	var plan []stim
 	at := time.Duration(0)
@@ -40,7 +42,7 @@ func RunLeechers(c *sim.Ctx) {
 			k := []string{"arrive", "process", "suspend", "resume", "done"}[c.PickW("op", []int{10, 10, 2, 3, 1})]
 			return sim.Op{K: k, A: []int64{int64(at), int64(c.Pick("n", 3) + 1)}}, true
 		}
-		k := []string{"register", "unregister", "terminate", "flag_terminate_session", "clear_flag"}[c.PickW("op", []int{8, 6, 1, 2, 2})]
+		k := []string{"register", "unregister", "terminate", "flag_terminate_session", "clear_flag", "unregister_at_next_tick"}[c.PickW("op", []int{8, 6, 1, 2, 2, 3})]
 		return sim.Op{K: k, A: []int64{int64(at), int64(c.Pick("peer", nPeers))}}, true
 	}
 	for {
@@ -57,7 +59,7 @@ func RunLeechers(c *sim.Ctx) {
 		return
 	}
 	rec := &recorder{}
-	probes := map[string]int{}
+	probes := newProbes()
 	var simEnd time.Duration
 	var trouble string
 	if which == 0 {
@@ -65,7 +67,9 @@ func RunLeechers(c *sim.Ctx) {
 			start := time.Now()
 			now := func() time.Duration { return time.Since(start) }
 			var wg sync.WaitGroup
+			var ml modelLock
 			suspended, done := false, false
+			doneSince := time.Duration(-1) // instant the application's download became done
 			lastSuspendAnswer := false
 			doneAnswered := false
 			arrived := 0   // chunk ids 0..arrived-1 were handed to the leecher
@@ -73,15 +77,25 @@ func RunLeechers(c *sim.Ctx) {
 			requested := 0
 			l := basepeerleecher.New(&wg, basepeerleecher.EpochDownloaderConfig{RecheckInterval: recheck, DefaultChunkItemsNum: 10, DefaultChunkItemsSize: 1000, ParallelChunksDownload: parallel},
 				basepeerleecher.EpochDownloaderCallbacks{
-					IsProcessed: func(id interface{}) bool { return id.(int) < processed },
+					IsProcessed: func(id interface{}) (r bool) {
+						ml.do(func() { r = id.(int) < processed })
+						return r
+					},
 					RequestChunks: func(maxNum uint32, maxSize uint64, maxChunks uint32) error {
-						probes["request_chunks_called"]++
+						ml.mu.Lock()
+						defer ml.mu.Unlock()
+						probes.inc("request_chunks_called")
 						requested += int(maxChunks)
 						if lastSuspendAnswer {
 							rec.violation("leecher-suspend", "leecher-suspend", "t=%v: RequestChunks(%d) although Suspend() just answered true", now(), maxChunks)
 						}
 						if doneAnswered {
 							rec.violation("leecher-done", "leecher-done", "t=%v: RequestChunks(%d) after Done() returned true", now(), maxChunks)
+						}
+						if doneSince >= 0 && now() > doneSince {
+							// the download has been done since an earlier instant: whatever made the leecher act now (a tick, a
+							// chunk) came after that, and acting on it includes asking whether the download is done
+							rec.violation("leecher-done", "leecher-done/request-while-done", "t=%v: RequestChunks(%d) although the download has been done (Done() answers true) since %v", now(), maxChunks, doneSince)
 						}
 						arrivedAndProcessed := processed
 						if arrived < arrivedAndProcessed {
@@ -91,21 +105,25 @@ func RunLeechers(c *sim.Ctx) {
 							rec.violation("leecher-window", "leecher-window", "t=%v: %d chunks requested in total, %d arrived and processed: %d outstanding, the parallelism limit is %d", now(), requested, arrivedAndProcessed, requested-arrivedAndProcessed, parallel)
 						}
 						if requested-arrivedAndProcessed == parallel {
-							probes["window_full"]++
+							probes.inc("window_full")
 						}
 						return nil
 					},
 					Suspend: func() bool {
+						ml.mu.Lock()
+						defer ml.mu.Unlock()
 						lastSuspendAnswer = suspended
 						if suspended {
-							probes["tick_while_suspended"]++
+							probes.inc("tick_while_suspended")
 						}
 						return suspended
 					},
 					Done: func() bool {
+						ml.mu.Lock()
+						defer ml.mu.Unlock()
 						if done {
 							doneAnswered = true
-							probes["done_reported"]++
+							probes.inc("done_reported")
 						}
 						return done
 					},
@@ -119,31 +137,44 @@ func RunLeechers(c *sim.Ctx) {
 				switch s.op.K {
 				case "arrive":
 					for i := 0; i < n; i++ {
-						if arrived-processed >= 2*parallel {
-							probes["chunk_dropped_window_overflow"]++
-						}
 						if l.Stopped() {
 							break
 						}
-						_ = l.NotifyChunkReceived(arrived)
-						arrived++
+						id := 0
+						ml.do(func() {
+							if arrived-processed >= 2*parallel {
+								probes.inc("chunk_dropped_window_overflow")
+							}
+							// counted before the hand-over: the leecher may act on the chunk while the call is still in progress
+							id = arrived
+							arrived++
+						})
+						_ = l.NotifyChunkReceived(id)
 					}
 				case "process":
-					processed += n
-					if processed > arrived {
-						processed = arrived
-					}
+					ml.do(func() {
+						processed += n
+						if processed > arrived {
+							processed = arrived
+						}
+					})
 				case "suspend":
-					suspended = true
+					ml.do(func() { suspended = true })
 				case "resume":
-					suspended = false
+					ml.do(func() { suspended = false })
 				case "done":
-					done = true
+					ml.do(func() {
+						if !done {
+							done, doneSince = true, t
+						}
+					})
 				}
 			}
 			drive(plan, fire, nil)
 			settle(3 * recheck)
-			if done && !rec.failed() && !l.Stopped() {
+			isDone := false
+			ml.do(func() { isDone = done })
+			if isDone && !rec.failed() && !l.Stopped() {
 				rec.violation("leecher-done", "leecher-done/not-stopped", "the download was reported done %v ago but the peer leecher has not stopped", 3*recheck)
 			}
 			simEnd = now()
@@ -153,14 +184,20 @@ func RunLeechers(c *sim.Ctx) {
 		trouble = runBubble(c.T, func() {
 			start := time.Now()
 			now := func() time.Duration { return time.Since(start) }
+			var ml modelLock
+			var async sync.WaitGroup
 			ongoing := ""
 			lastPeer := ""
 			flag := false
 			terminated := false
-			registered := map[string]bool{} // as the application sees it: RegisterPeer returned / UnregisterPeer returned
+			registered := map[string]bool{}   // as the application sees it: RegisterPeer returned / UnregisterPeer returned
+			unregistering := map[string]int{} // UnregisterPeer calls in progress on another goroutine
 			var l *basestreamleecher.BaseLeecher
 			l = basestreamleecher.New(recheck, basestreamleecher.Callbacks{
 				SelectSessionPeerCandidates: func() []string {
+					if yieldInCallbacks {
+						runtime.Gosched()
+					}
 					var r []string
 					for p := range l.Peers {
 						r = append(r, p)
@@ -168,9 +205,17 @@ func RunLeechers(c *sim.Ctx) {
 					sort.Strings(r)
 					return r
 				},
-				ShouldTerminateSession: func() bool { return flag },
+				ShouldTerminateSession: func() (r bool) {
+					if yieldInCallbacks {
+						runtime.Gosched()
+					}
+					ml.do(func() { r = flag })
+					return r
+				},
 				StartSession: func(cands []string) {
-					probes["session_started"]++
+					ml.mu.Lock()
+					defer ml.mu.Unlock()
+					probes.inc("session_started")
 					if ongoing != "" {
 						rec.violation("leecher-session", "leecher-session/second-session", "t=%v: StartSession while a session with %s is ongoing", now(), ongoing)
 					}
@@ -178,7 +223,7 @@ func RunLeechers(c *sim.Ctx) {
 						rec.violation("leecher-session", "leecher-session/after-terminate", "t=%v: StartSession after Terminate", now())
 					}
 					for _, p := range cands {
-						if !registered[p] {
+						if !registered[p] && unregistering[p] == 0 {
 							rec.violation("leecher-peer", "leecher-peer/unregistered-candidate", "t=%v: StartSession received candidate %s, which is not registered (unregistered or never registered)", now(), p)
 						}
 					}
@@ -190,17 +235,28 @@ func RunLeechers(c *sim.Ctx) {
 					lastPeer = ongoing
 				},
 				TerminateSession: func() {
-					if ongoing != "" && flag {
-						probes["session_terminated_by_flag"]++
-					}
-					ongoing = ""
+					ml.do(func() {
+						if ongoing != "" && flag {
+							probes.inc("session_terminated_by_flag")
+						}
+						ongoing = ""
+					})
 				},
-				OngoingSession:     func() bool { return ongoing != "" },
-				OngoingSessionPeer: func() string {
-					if rememberPeer {
-						return lastPeer
+				OngoingSession: func() (r bool) {
+					if yieldInCallbacks {
+						runtime.Gosched()
 					}
-					return ongoing
+					ml.do(func() { r = ongoing != "" })
+					return r
+				},
+				OngoingSessionPeer: func() (r string) {
+					ml.do(func() {
+						r = ongoing
+						if rememberPeer {
+							r = lastPeer
+						}
+					})
+					return r
 				},
 			})
 			l.Start()
@@ -211,52 +267,93 @@ func RunLeechers(c *sim.Ctx) {
 				p := fmt.Sprintf("p%d", s.op.A[1])
 				switch s.op.K {
 				case "register":
-					if !terminated {
-						registered[p] = true // from the moment the call is made the peer may be chosen
-					}
+					ml.do(func() {
+						if !terminated {
+							registered[p] = true // from the moment the call is made the peer may be chosen
+						}
+					})
 					_ = l.RegisterPeer(p)
 				case "unregister":
-					if ongoing == p {
-						probes["unregister_of_session_peer"]++
-					}
-					// a session started inside UnregisterPeer must already exclude the peer
-					registered[p] = false
+					ml.do(func() {
+						if ongoing == p {
+							probes.inc("unregister_of_session_peer")
+						}
+						// a session started inside UnregisterPeer must already exclude the peer
+						registered[p] = false
+					})
 					_ = l.UnregisterPeer(p)
-					if ongoing == p {
-						rec.violation("leecher-peer", "leecher-peer/session-with-unregistered-peer", "t=%v: UnregisterPeer(%s) returned but a session with that peer is running", now(), p)
-					}
+					ml.do(func() {
+						if ongoing == p {
+							rec.violation("leecher-peer", "leecher-peer/session-with-unregistered-peer", "t=%v: UnregisterPeer(%s) returned but a session with that peer is running", now(), p)
+						}
+					})
+				case "unregister_at_next_tick":
+					// another goroutine of the application unregisters the peer at the very instant of the leecher's next
+					// tick: both become runnable together, and with yielding callbacks they interleave
+					tick := (t/recheck + 1) * recheck
+					async.Add(1)
+					go func() {
+						defer async.Done()
+						time.Sleep(tick - now())
+						// the call takes effect somewhere between now and its return: until then the peer may still be chosen
+						ml.do(func() {
+							probes.inc("unregister_concurrent_with_tick")
+							unregistering[p]++
+						})
+						_ = l.UnregisterPeer(p)
+						ml.do(func() {
+							unregistering[p]--
+							registered[p] = false
+							if ongoing == p {
+								rec.violation("leecher-peer", "leecher-peer/session-with-unregistered-peer", "t=%v: UnregisterPeer(%s), called concurrently with a tick, returned but a session with that peer is running", now(), p)
+							}
+						})
+					}()
 				case "terminate":
-					if !terminated {
-						if ongoing != "" {
-							probes["terminate_with_session"]++
+					first := false
+					ml.do(func() {
+						if !terminated {
+							first = true
+							if ongoing != "" {
+								probes.inc("terminate_with_session")
+							}
+							terminated = true
 						}
-						terminated = true
+					})
+					if first {
 						l.Terminate()
-						if ongoing != "" {
-							rec.violation("leecher-session", "leecher-session/alive-after-terminate", "Terminate returned but a session with %s is running", ongoing)
-						}
+						ml.do(func() {
+							if ongoing != "" {
+								rec.violation("leecher-session", "leecher-session/alive-after-terminate", "Terminate returned but a session with %s is running", ongoing)
+							}
+						})
 					}
 				case "flag_terminate_session":
-					flag = true
+					ml.do(func() { flag = true })
 				case "clear_flag":
-					flag = false
+					ml.do(func() { flag = false })
 				}
 			}
 			drive(plan, fire, func(time.Duration) {
-				if ongoing != "" && !registered[ongoing] && !rec.failed() {
-					rec.violation("leecher-peer", "leecher-peer/session-with-unregistered-peer", "t=%v: a session with unregistered peer %s is running", now(), ongoing)
-				}
+				ml.do(func() {
+					if ongoing != "" && !registered[ongoing] && unregistering[ongoing] == 0 && !rec.failed() {
+						rec.violation("leecher-peer", "leecher-peer/session-with-unregistered-peer", "t=%v: a session with unregistered peer %s is running", now(), ongoing)
+					}
+				})
 			})
 			settle(3 * recheck)
+			async.Wait()
 			simEnd = now()
-			if !terminated {
+			wasTerminated := false
+			ml.do(func() { wasTerminated = terminated })
+			if !wasTerminated {
 				l.Stop()
 			} else {
 				l.Wg.Wait()
 			}
 		})
 	}
-	for k, v := range probes {
+	for k, v := range probes.snapshot() {
 		for i := 0; i < v; i++ {
 			c.Probe(k)
 		}
